@@ -132,6 +132,37 @@ def _oracle(case, est=None):
         Ra = est.inverse_transform(alone)[:, e:]
         if l not in eps_r or Ra.shape != eps_r[l].shape or not np.allclose(Ra, eps_r[l], rtol=1e-12, atol=1e-12):
             return f'episode {l}: inverse_transform of the whole matrix differs from the episode alone'
+    if ep:
+        # HISTORY: the SAME array object is transformed, its episode column is rewritten in place (episodes re-cut and
+        # renumbered), and it is transformed again at once: the second result must follow the labels the array has NOW
+        X1 = np.array(X, dtype=float)
+        est.transform(X1)
+        pykoop.split_episodes(X1, episode_feature=True)
+        lab = X1[:, 0].copy()
+        big = max(eps, key=lambda l: eps[l].shape[0])
+        idx = np.flatnonzero(lab == big)
+        new = lab + 2                                   # renumber every episode ...
+        if idx.shape[0] >= 2 * m:
+            new[idx[idx.shape[0] // 2:]] = lab.max() + 7    # ... and cut the longest one in two
+        X1[:, 0] = new
+        got = [(int(l), np.array(b)) for l, b in pykoop.split_episodes(X1, episode_feature=True)]
+        want = st.ref_split(X1, True)
+        if len(got) != len(want) or any(a[0] != b[0] or a[1].shape != b[1].shape or not np.array_equal(a[1], b[1])
+                                        for a, b in zip(got, want)):
+            return ('split_episodes on an array whose episode column was rewritten in place since the previous call does not '
+                    'group the rows by their current labels')
+        T1 = est.transform(X1)
+        eps1, eps1_t = st.episodes(X1, True), st.episodes(T1, True)
+        if set(eps1_t) - set(eps1):
+            return (f'after rewriting the episode column in place, transform returns labels {sorted(set(eps1_t) - set(eps1))} '
+                    f'that the array no longer contains')
+        for l, Xe in eps1.items():
+            if Xe.shape[0] < m:
+                continue
+            Ta = est.transform(st.ref_combine([(l, Xe)], True))[:, 1:]
+            if l not in eps1_t or Ta.shape != eps1_t[l].shape or not np.allclose(Ta, eps1_t[l], rtol=1e-12, atol=1e-12):
+                return (f'after rewriting the episode column in place, episode {l} of transform(X) differs from the transform '
+                        f'of that episode alone')
     return None
 
 
@@ -140,6 +171,17 @@ def oracle(case, est=None):
         return _oracle(case, est)
     except Exception as ex:
         return f'transform / inverse_transform raised {type(ex).__name__}: {ex}'
+
+
+def population_search(ctx):
+    """failing-input search over a fresh population (also used when an exception raised inside the implementation
+    ended the correspondence run early)"""
+    for i in range(400):
+        c = st.gen_case(ctx.rng, KINDS, max_depth=3, cap=30, opaque=True)
+        why = oracle(c)
+        if why:
+            ctx.fail(why, c, {'kinds': sorted(pipes.kinds_in(c['spec']))})
+            return
 
 
 def run(ctx):
@@ -233,12 +275,7 @@ def run(ctx):
                 if why:
                     ctx.fail(why, c, {'kinds': sorted(pipes.kinds_in(c['spec']))})
                     return
-        for i in range(400):
-            c = st.gen_case(ctx.rng, KINDS, max_depth=3, cap=30, opaque=True)
-            why = oracle(c)
-            if why:
-                ctx.fail(why, c, {'kinds': sorted(pipes.kinds_in(c['spec']))})
-                return
+        population_search(ctx)
     return ctx.finish('proof', search)
 
 
